@@ -50,6 +50,9 @@ type rawCfg struct {
 	tis            []string
 	inhibit        int
 	global         bool
+	pdURL          int            // > 0: global pagerduty_url override (a distinct URL per value)
+	pdRecv         bool           // the first receiver also has a pagerduty integration relying on the global URL
+	tiKind         map[string]int // body of each named time interval
 }
 
 func hx(s string) string {
@@ -357,6 +360,16 @@ func (n *node) yaml(b *strings.Builder, ind string, first bool) {
 
 const tiBody = "    time_intervals:\n    - weekdays: ['monday:friday']\n      times:\n      - start_time: '09:00'\n        end_time: '17:00'\n"
 
+// every field shape the textual form has to carry back, boundary values included (a range ending at 24:00,
+// the last minute of the day, negative days, a location)
+var tiBodies = []string{
+	tiBody,
+	"    time_intervals:\n    - times:\n      - start_time: '00:00'\n        end_time: '24:00'\n",
+	"    time_intervals:\n    - weekdays: ['saturday', 'sunday']\n      times:\n      - start_time: '22:30'\n        end_time: '24:00'\n      - start_time: '00:00'\n        end_time: '00:01'\n",
+	"    time_intervals:\n    - days_of_month: ['-3:-1', '1']\n      months: ['january:march', 'december']\n      years: ['2024:2030']\n      location: 'Europe/Berlin'\n",
+	"    time_intervals:\n    - times:\n      - start_time: '23:59'\n        end_time: '24:00'\n      weekdays: ['monday']\n      location: 'UTC'\n",
+}
+
 func (c *rawCfg) yaml() string {
 	var b strings.Builder
 	if c.decodeWhere == "top" {
@@ -364,6 +377,9 @@ func (c *rawCfg) yaml() string {
 	}
 	if c.global || c.globalConflict {
 		b.WriteString("global:\n  resolve_timeout: 7m\n  smtp_hello: example.org\n")
+		if c.pdURL > 0 {
+			fmt.Fprintf(&b, "  pagerduty_url: 'http://pagerduty-%d.example.org/enqueue'\n", c.pdURL)
+		}
 		if c.globalConflict {
 			b.WriteString("  opsgenie_api_key: abc\n  opsgenie_api_key_file: /tmp/k\n")
 		}
@@ -377,7 +393,7 @@ func (c *rawCfg) yaml() string {
 	}
 	if len(c.recvs) > 0 {
 		b.WriteString("receivers:\n")
-		for _, r := range c.recvs {
+		for ri, r := range c.recvs {
 			if r.hasName {
 				b.WriteString("- name: " + q(r.name) + "\n")
 			} else {
@@ -392,6 +408,10 @@ func (c *rawCfg) yaml() string {
 			if r.urlFile {
 				b.WriteString("  webhook_configs:\n  - url_file: /tmp/url\n")
 			}
+			if ri == 0 && c.pdRecv && r.hasName {
+				// relies on the global pagerduty_url (default or overridden): Config.UnmarshalYAML copies that URL in
+				b.WriteString("  pagerduty_configs:\n  - routing_key_file: /tmp/rk\n")
+			}
 			if c.decodeWhere == "receiver" {
 				b.WriteString(c.decodeFault)
 			}
@@ -404,7 +424,7 @@ func (c *rawCfg) yaml() string {
 				b.WriteString("  - time_intervals: []\n")
 				continue
 			}
-			b.WriteString("  - name: " + q(n) + "\n" + tiBody)
+			b.WriteString("  - name: " + q(n) + "\n" + tiBodies[c.tiKind[n]%len(tiBodies)])
 		}
 	}
 	if len(c.tis) > 0 {
@@ -414,7 +434,7 @@ func (c *rawCfg) yaml() string {
 				b.WriteString("  - time_intervals: []\n")
 				continue
 			}
-			b.WriteString("  - name: " + q(n) + "\n" + tiBody)
+			b.WriteString("  - name: " + q(n) + "\n" + tiBodies[c.tiKind[n]%len(tiBodies)])
 		}
 	}
 	if c.inhibit > 0 {
@@ -498,15 +518,21 @@ func allNodes(n *node, out *[]*node) {
 
 // genTree makes a secret-free configuration with 0..2 injected faults.
 func genTree(r *rand.Rand) *rawCfg {
-	c := &rawCfg{global: r.IntN(2) == 0, inhibit: r.IntN(3)}
+	c := &rawCfg{global: r.IntN(2) == 0, inhibit: r.IntN(3), tiKind: map[string]int{}}
+	if c.global && r.IntN(2) == 0 {
+		c.pdURL = 1 + r.IntN(1000)
+	}
+	c.pdRecv = r.IntN(2) == 0
 	for i := range 1 + r.IntN(4) {
 		c.recvs = append(c.recvs, rawRecv{name: fmt.Sprintf("recv%d", i), hasName: true, urlFile: r.IntN(4) == 0})
 	}
 	for i := range r.IntN(3) {
 		c.mutes = append(c.mutes, fmt.Sprintf("mute%d", i))
+		c.tiKind[fmt.Sprintf("mute%d", i)] = r.IntN(len(tiBodies))
 	}
 	for i := range r.IntN(3) {
 		c.tis = append(c.tis, fmt.Sprintf("ti%d", i))
+		c.tiKind[fmt.Sprintf("ti%d", i)] = r.IntN(len(tiBodies))
 	}
 	c.root = genNode(r, 0, c, true)
 	nf := 0
